@@ -1124,7 +1124,7 @@ struct StmW {
         int  k    = (int)((uint64_t)op.a[1] % K);
         int  kind = (int)((uint64_t)op.kind % T_COUNT);
         U32  txt  = mask_units<C>(op.s.empty() ? U32() : unpack_units(op.s[0]));
-        const size_t big = (size_t)((uint64_t)op.a[5] % 300000); // a few operations ask for far more than 64 Ki units at once
+        const size_t big = (size_t)((uint64_t)op.a[5] % 2400000); // a few operations ask for far more than 64 Ki units at once, very few for more than 1 Mi
         if (big != 0) {
             txt.resize(big);
             for (size_t i = 0; i < big; i++) txt[i] = (char32_t)('a' + (i * 7 + big) % 26);
@@ -1142,7 +1142,7 @@ struct StmW {
                 break;
             }
             case T_CTOR_SIZE: {
-                size_t n = (size_t)((uint64_t)op.a[2] % 40);
+                size_t n = big != 0 ? big : (size_t)((uint64_t)op.a[2] % 40);
                 {
                     LibCall lc;
                     s.~Stm();
@@ -1837,10 +1837,29 @@ static void generate(Plan &plan, uint64_t seed, int tier) {
             op.a[2] = (int64_t)(sel == 0 ? ops.below(40) : sel == 1 ? ops.below(300) : ops.below(4097));
         }
         if (sub >= SW_STRING && sub <= SW_VIEW) op.s.push_back(pack_units(gen_units(ops, 12, w, true)));
-        if (sub == SW_STREAM && ops.chance(1, 700)) {
+        if (sub == SW_STREAM && ops.chance(1, 500)) {
             static const int big_kinds[] = {T_WRITE, T_EXPECT, T_BUFFER, T_SETLENGTH, T_ADD_STR, T_SHL_VIEW, T_ASSIGN_VIEW};
             op.kind = big_kinds[ops.below(7)];
             op.a[5] = (int64_t)(65536 + ops.below(200000));
+            if (ops.chance(1, 3)) {
+                // a stream that already holds about 2^20 units, then one request for more than twice its capacity: the
+                // sizes at which growth policies change their mind
+                Op first   = op;
+                first.kind = ops.chance(1, 2) ? T_WRITE : T_ADD_STR;
+                first.a[5] = (int64_t)((1 << 20) - 2 + ops.below(5));
+                if (ops.chance(2, 3)) {
+                    // ... in a block of exactly that size (constructor), so that the stream is full to the brim
+                    Op ctor   = op;
+                    ctor.kind = T_CTOR_SIZE;
+                    ctor.a[5] = first.a[5] + (int64_t)ops.below(2);
+                    plan.ops.push_back(ctor);
+                }
+                plan.ops.push_back(first);
+                op.a[0] = first.a[0];
+                op.a[5] = (int64_t)((1 << 20) + (1 << 19) + ops.below(600000));
+                plan.ops.push_back(op);
+                break; // (the history ends here: every further step would compare megabytes again)
+            }
         }
         plan.ops.push_back(op);
     }
